@@ -7,6 +7,7 @@ import time
 from .. import codec, common, pyavro
 
 PROP = "C01"
+THOROUGH_SEEDS = 2        # seeds per thorough run (bin/check)
 STYLES = ["named", "rust", "bare"]
 
 
